@@ -6,9 +6,57 @@
    the same symbol and, for a parametric terminal, the same parameter BYTES,
    for a function the same arguments. *)
 From Coq Require Import ZArith NArith List Bool Arith Lia FinFun.
-From VV Require Import Base.F64 Base.Values Interp.Strategy Mep.Genome Mep.OpsDefs Mep.CseProofs.
+From VV Require Import Base.F64 Base.Values Interp.Strategy Mep.Genome Mep.OpsDefs.
 From VV Require Import Sig.Bits64 Sig.Murmur Sig.SigDefs Sig.SigProofs Sig.TreeProofs Sig.CseDefs.
 Import ListNotations.
+
+(* Four small facts about C02's definitions, re-proved here (they also are in
+   Mep/CseProofs.v) so that this file depends on the DEFINITIONS of the cse
+   model only, not on the proof files of other properties. *)
+Lemma mapO_Forall2 {A B} (f : A -> option B) : forall l l', mapO f l = Some l' ->
+  Forall2 (fun a b => f a = Some b) l l'.
+Proof.
+  induction l as [|a l IH]; intros l' H; cbn [mapO] in H.
+  - inversion H. constructor.
+  - destruct (f a) as [b|] eqn:Ea; [|discriminate]. destruct (mapO f l) as [bs|]; [|discriminate].
+    inversion H. subst. constructor; auto.
+Qed.
+Lemma lex_ltb_irrefl a : lex_ltb a a = false.
+Proof. induction a as [|x a IH]; cbn [lex_ltb]; [reflexivity|]. rewrite Nat.ltb_irrefl. exact IH. Qed.
+Lemma lex_incomp_eq : forall a b, lex_ltb a b = false -> lex_ltb b a = false -> a = b.
+Proof.
+  induction a as [|x a IH]; intros [|y b] H1 H2; cbn [lex_ltb] in *; try discriminate; [reflexivity|].
+  destruct (Nat.ltb x y) eqn:E1; [discriminate|]. destruct (Nat.ltb y x) eqn:E2; [discriminate|].
+  apply Nat.ltb_ge in E1, E2. assert (x = y) by lia. subst. f_equal. apply IH; assumption.
+Qed.
+Lemma gene_equiv_char a b :
+  (s_opcode (g_sym a) = s_opcode (g_sym b) ->
+   s_argcats (g_sym a) = s_argcats (g_sym b) /\ s_parametric (g_sym a) = s_parametric (g_sym b)) ->
+  (gene_equiv gene_cmp a b = true <->
+   s_opcode (g_sym a) = s_opcode (g_sym b) /\
+   (if is_terminal (g_sym a)
+    then (if s_parametric (g_sym a) then par_incomp (g_par a) (g_par b) = true else True)
+    else g_args a = g_args b)).
+Proof.
+  intros Hcoh. unfold gene_equiv, gene_cmp.
+  destruct (Z.eqb_spec (s_opcode (g_sym a)) (s_opcode (g_sym b))) as [Eop|Nop].
+  - destruct (Hcoh Eop) as [Hac Hpar].
+    replace (s_opcode (g_sym b) =? s_opcode (g_sym a))%Z with true by (symmetry; apply Z.eqb_eq; congruence).
+    cbn [negb]. unfold is_terminal. rewrite <- Hac, <- Hpar.
+    destruct (s_argcats (g_sym a)) eqn:Eac.
+    + destruct (s_parametric (g_sym a)).
+      * unfold par_incomp. tauto.
+      * cbn. tauto.
+    + split.
+      * intros H. apply andb_true_iff in H. destruct H as [H1 H2]. apply negb_true_iff in H1, H2.
+        split; [exact Eop|]. apply lex_incomp_eq; assumption.
+      * intros [_ ->]. rewrite lex_ltb_irrefl. reflexivity.
+  - replace (s_opcode (g_sym b) =? s_opcode (g_sym a))%Z with false
+      by (symmetry; apply Z.eqb_neq; congruence).
+    cbn [negb]. split; [|intros [H _]; contradiction].
+    intros H. apply andb_true_iff in H. destruct H as [H1 H2]. apply negb_true_iff in H1, H2.
+    apply Z.ltb_ge in H1. apply Z.ltb_ge in H2. lia.
+Qed.
 
 (* equality of optional trees up to the canonical form *)
 Definition ceq (a b : option tree) : Prop := option_map canon a = option_map canon b.
